@@ -62,7 +62,8 @@ def make_data(p):
     nv = max(4, n // 3)
     Xv = torch.randn(nv, d, generator=g, dtype=dt)
     yv = torch.tanh(Xv @ W) + 0.1 * torch.randn(nv, o, generator=g, dtype=dt)
-    return X, y, Xv, yv
+    ys = float(p.get('yscale', 1.0))      # targets in other units: the normalised feature matrix does not depend on them
+    return X, y * ys, Xv, yv * ys
 
 
 def run_fit(p):
@@ -363,7 +364,8 @@ def gen_cases(r, n_cases):
                       'reg': r.choice([1e-3, 1e-2, 1e-1]), 'early': r.random() < 0.3, 'return_best': r.random() < 0.7,
                       'bandwidth_mode': 'adaptive' if adaptive else 'constant',
                       'vary_batch': fam != 'center-grads-single-batch', 'seed': r.randint(0, 2 ** 31 - 1),
-                      'maximize': fam == 'leaf-fits' and t % 3 == 1})
+                      'maximize': fam == 'leaf-fits' and t % 3 == 1,
+                      'yscale': r.choice([1.0, 1.0, 1.0, 1.0, 1e-6, 1e-4, 1e3, 1e6])})
         if cases[-1]['maximize']:
             cases[-1]['return_best'] = True
             cases[-1]['iters'] = max(2, cases[-1]['iters'])
